@@ -36,7 +36,6 @@ from ..core import Ctx, MachineryError, NCPU
 
 PY = sys.executable
 PROJECT_NAME = "Proj"
-KF_ID = "guessed-project-name-follows-set-order"
 
 # ------------------------------------------------------------------------------------- universes
 # name -> kind tree; ids used by the spec are the ranks of the names under sorted(Path) among siblings
@@ -432,11 +431,9 @@ def alldocs_order(tree: Tree, out: Path) -> List[List[int]]:
 CFG = """SPECIFICATION Spec
 CONSTANTS MaxRoots = {maxroots}
           Source = "{source}"
-          Guess = "{guess}"
           ReuseUpTo = {reuse}
           PermuteUpTo = {permute}
           EpochRule = "{epochrule}"
-          TableIds = "{tableids}"
           SameProcUpTo = {sameproc}
           Listing = "{listing}"
 CONSTRAINT Collect
@@ -445,17 +442,17 @@ POSTCONDITION Post
 """
 
 
-def tlc_enum(ctx: Ctx, tree: Tree, maxroots: int, guess: str, listing: str = "sorted", count: bool = True, coverage: bool = False,
+def tlc_enum(ctx: Ctx, tree: Tree, maxroots: int, listing: str = "sorted", count: bool = True, coverage: bool = False,
              reuse: int = 9, sites_as_set: bool = False, variants: Sequence[Tuple[str, int, int]] = (("alphabetical", EPOCH, 9),),
-             epochrule: str = "is_set", permute: int = 9, tableids: str = "process_counter", sameproc: int = 0):
+             epochrule: str = "is_set", permute: int = 9, sameproc: int = 0):
     f = ctx.scratch / f"universe_{tree.src.name}.json"
     uni = tree.universe(variants=variants)
     if sites_as_set:
         for st in uni["sites"]:
             st["how"] = BOTH("set")
     f.write_text(json.dumps(uni))
-    r = ctx.tlc("Determinism", CFG.format(maxroots=maxroots, source="enum", guess=guess, listing=listing, reuse=reuse, epochrule=epochrule, permute=permute,
-                                            tableids=tableids, sameproc=sameproc), workers=1,
+    r = ctx.tlc("Determinism", CFG.format(maxroots=maxroots, source="enum", listing=listing, reuse=reuse, epochrule=epochrule, permute=permute,
+                                            sameproc=sameproc), workers=1,
                 env={"C18_UNIVERSE": str(f)}, check=True, timeout=1500, count=count, coverage=coverage)
     post = [x for x in r.printed if "dependent" in x]
     recs = [x for x in r.printed if "pid" in x]
@@ -467,34 +464,6 @@ def tlc_enum(ctx: Ctx, tree: Tree, maxroots: int, guess: str, listing: str = "so
 def is_identity(rec: Dict[str, Any]) -> bool:
     return (rec["outdir"] == "fresh" and rec["setOrder"] == sorted(rec["setOrder"])
             and all([e["id"] for e in l["order"]] == sorted(e["id"] for e in l["order"]) for l in rec["listing"]))
-
-
-def kf_rootname_set_order(w: Dict[str, Any]) -> bool:
-    """Known finding: without --project-name and with >= 2 roots, '/'.join(system.root_names) iterates a set, so the
-    guessed name follows PYTHONHASHSEED.  Matches ONLY if the two trees have the same files and become byte-identical
-    once the observed project name of one run is rewritten to the other's, and both names join the same root names."""
-    if w.get("invariant") != "OutputIndependentOfEnvironment":
-        return False
-    pr = w.get("project", {})
-    names = w.get("observed_projname") or [None, None]
-    if pr.get("named") or len(pr.get("roots", [])) < 2 or None in names or names[0] == names[1]:
-        return False
-    if sorted(names[0].split("/")) != sorted(pr["roots"]) or sorted(names[1].split("/")) != sorted(pr["roots"]):
-        return False
-    return w.get("same_file_set") is True and w.get("residual_after_projname_normalisation") == []
-
-
-KF_TABLE_IDS = "member-table-ids-count-on-across-runs-of-a-process"
-
-
-def kf_table_ids(w: Dict[str, Any]) -> bool:
-    """Known finding: ChildTable.last_id is a class attribute, never reset: the id="idN" of the member tables of a run
-    continue where the previous pydoctor run of the same process stopped.  Matches ONLY a run that was the second of its
-    process compared with a first run, with the same file set, whose every difference disappears when the numbers of
-    the table ids are masked."""
-    return (w.get("invariant") == "OutputIndependentOfEnvironment" and w.get("env", {}).get("outdir") == "sameproc"
-            and w.get("ref_env", {}).get("outdir") == "fresh" and w.get("same_file_set") is True
-            and w.get("n_differing", 0) > 0 and w.get("residual_after_table_id_normalisation") == [])
 
 
 def compare_with_ref(ref_out: Path, ref_digest: Dict[str, str], out: Path, name_ref: Optional[str],
@@ -712,14 +681,10 @@ def observed_runs(ctx: Ctx, runner: Runner, pool: ThreadPoolExecutor, rng: rando
 
 def run(ctx: Ctx) -> int:
     rng = random.Random(ctx.seed)
-    ctx.register_matcher(KF_ID, kf_rootname_set_order)
-    ctx.register_matcher(KF_TABLE_IDS, kf_table_ids)
     runner = Runner(ctx.scratch)
     pool = ThreadPoolExecutor(max_workers=max(2, min(NCPU - 2, 14)))
     plans = [("small", 2, 1)] if ctx.quick else [("small", 3, 9), ("large", 1, 9)]
     nseeds = 64 if ctx.quick else 128
-    guess_variant = None
-    table_variant = None
     summary: Dict[str, Any] = {}
     total_recs = 0
     nontrivial = 0
@@ -731,48 +696,19 @@ def run(ctx: Ctx) -> int:
             variants = VARIANTS[ctx.tier] if uname == "small" else VARIANTS["quick"][:1]
             permute = 1 if ctx.quick else 9
             sameproc = 1 if uname == "small" else 0
-            recs, dep_model, r = tlc_enum(ctx, tree, maxroots, "rootobjects", coverage=ctx.quick, reuse=reuse, variants=variants,
+            recs, dep_model, r = tlc_enum(ctx, tree, maxroots, coverage=ctx.quick, reuse=reuse, variants=variants,
                                           permute=permute, sameproc=sameproc)
             if r.coverage:
                 ctx.extra["action_coverage"] = r.coverage
                 ctx.extra["actions_never_taken"] = [a for a, c in r.coverage.items() if c == 0 and a[0].isupper() and a != "Init"]
             res = realise_enumeration(ctx, runner, tree, uname, recs, pool, nseeds)
-            # which of the two transcriptions of the name guess does the code follow?  (command line order = the code
-            # since fix 2ce009d; set iteration = before it).  Both live in the spec; use the one the code conforms to.
-            def name_mismatches(records: List[Dict[str, Any]]) -> List[Tuple[Dict[str, Any], str]]:
-                key = lambda q: json.dumps([q["roots"], q["named"], q["var"], q["outdir"], q["setOrder"], q["listing"]], sort_keys=True)
-                byk = {key(q): q for q in records}
-                bad = []
-                for x in res["runs"]:
-                    m = byk[key(x["rec"])]
-                    model = PROJECT_NAME if m["named"] else "/".join(tree.root_name[i] for i in m["projname"])
-                    real = x["guess"] if x["guess"] is not None else PROJECT_NAME
-                    if model != real or (m["named"] and x["guess"] is not None):
-                        bad.append((x, model))
-                return bad
-            mism = name_mismatches(recs)
-            variant = "rootobjects"
-            if mism:
-                recs2, dep2, _ = tlc_enum(ctx, tree, maxroots, "set", reuse=reuse, variants=variants, permute=permute, sameproc=sameproc)
-                mism2 = name_mismatches(recs2)
-                if len(mism2) < len(mism):
-                    mism, dep_model, variant = mism2, dep2, "set"
-            for x, model in mism:
-                x["drift"] = {**(x["drift"] or {}), "projname": {"model": model, "real": x["guess"]}}
-            if guess_variant not in (None, variant):
-                ctx.notes.append(f"name guess variant differs between universes: {guess_variant} / {variant}")
-            guess_variant = variant
-            # ... and which transcription of the table id counter (process-wide as in the code as it is, or per run)
-            sp = [x for x in res["runs"] if x["rec"]["outdir"] == "sameproc"]
-            if sp and all("table_ids" in (x["drift"] or {}) for x in sp):
-                _, dep_model, _ = tlc_enum(ctx, tree, maxroots, variant, reuse=reuse, variants=variants, permute=permute,
-                                           sameproc=sameproc, tableids="per_run", count=False)
-                for x in sp:
-                    del x["drift"]["table_ids"]
-                    x["drift"] = x["drift"] or None
-                table_variant = "per_run"
-            elif sp:
-                table_variant = "process_counter"
+            # the guessed project name (stdout) against the spec's: command line order of the roots
+            for x in res["runs"]:
+                m = x["rec"]
+                model = PROJECT_NAME if m["named"] else "/".join(tree.root_name[i] for i in m["projname"])
+                real = x["guess"] if x["guess"] is not None else PROJECT_NAME
+                if model != real or (m["named"] and x["guess"] is not None):
+                    x["drift"] = {**(x["drift"] or {}), "projname": {"model": model, "real": x["guess"]}}
             j = judge_enumeration(ctx, tree, uname, res, dep_model)
             j["terminal_states"] = len(recs)
             j["projects"] = len({x["pid"] for x in recs})
@@ -786,16 +722,14 @@ def run(ctx: Ctx) -> int:
                                  f"choice dependent {j['dependent_model']}")
         ctx.exhaustive = True
         ctx.extra["enumerations"] = summary
-        ctx.extra["name_guess_variant_followed_by_code"] = guess_variant
-        ctx.extra["table_id_variant_followed_by_code"] = table_variant
 
         # ---- model-level negative control: with the listing NOT sorted the register mechanism must report dependence
         src = ctx.scratch / "src_small"
         tree = Tree(src, sorted({f.split("/")[0] for f in UNIVERSES["small"]}))
-        _, dep_sorted, _ = tlc_enum(ctx, tree, 1, "rootobjects", "sorted", count=False)
-        _, dep_raw, _ = tlc_enum(ctx, tree, 1, "rootobjects", "raw", count=False)
-        _, dep_sets, _ = tlc_enum(ctx, tree, 1, "rootobjects", "sorted", count=False, reuse=0, sites_as_set=True)
-        _, dep_epoch, _ = tlc_enum(ctx, tree, 1, "rootobjects", "sorted", count=False, reuse=0, variants=[("alphabetical", 0, 1)],
+        _, dep_sorted, _ = tlc_enum(ctx, tree, 1, "sorted", count=False)
+        _, dep_raw, _ = tlc_enum(ctx, tree, 1, "raw", count=False)
+        _, dep_sets, _ = tlc_enum(ctx, tree, 1, "sorted", count=False, reuse=0, sites_as_set=True)
+        _, dep_epoch, _ = tlc_enum(ctx, tree, 1, "sorted", count=False, reuse=0, variants=[("alphabetical", 0, 1)],
                                    epochrule="truthy")
         ctx.extra["negative_control_model"] = {"dependent_when_epoch_zero_counts_as_unset": sorted(dep_epoch),
                                                "dependent_with_sorted_listing": sorted(dep_sorted),
@@ -828,9 +762,8 @@ def run(ctx: Ctx) -> int:
         f = ctx.scratch / "runs.json"
         f.write_text(json.dumps(fruns))
         file_drift = 0
-        gv = guess_variant or "set"
-        r2 = ctx.tlc("Determinism", CFG.format(maxroots=0, source="file", guess=gv, listing="sorted", reuse=9, epochrule="is_set", permute=9,
-                                            tableids="process_counter", sameproc=0), workers=1,
+        r2 = ctx.tlc("Determinism", CFG.format(maxroots=0, source="file", listing="sorted", reuse=9, epochrule="is_set", permute=9,
+                                            sameproc=0), workers=1,
                      env={"C18_RUNS": str(f)}, check=True, timeout=1500)
         got = {x["pid"]: x for x in r2.printed if "pid" in x}
         if len(got) != len(fruns):
